@@ -104,3 +104,34 @@ func HarnessC05SymbolTableOrder() {
 	}
 	verifrt.Reach("done")
 }
+
+// programs the compiler rejects: the error must be the same one every time
+var c05Rejected = []string{
+	`func k1(a=[1], b=[2]) { }`,
+	`func k2(a={x: 1}, b=[2], c=f()) { }`,
+	`{a: zz1, b: zz2}`,
+	`x := {k: zz1, "j": zz2}`,
+	`func h() { return [zz1, zz2] }`,
+}
+
+// HarnessC05CompileErrorsUnderEveryMapOrder: a program the compiler rejects is
+// rejected with the same message whatever order Go iterates its maps in.
+func HarnessC05CompileErrorsUnderEveryMapOrder() {
+	src := c05Rejected[verifrt.Choose(len(c05Rejected))]
+	prog, err := parser.Parse(context.Background(), src)
+	prog2, errB := parser.Parse(context.Background(), src)
+	verifrt.Assert(err == nil && errB == nil, "parses")
+	if err != nil || errB != nil {
+		return
+	}
+	_, err1 := Compile(prog, WithGlobalNames([]string{"f", "g"}))
+	verifrt.MapOrderAll(true)
+	_, err2 := Compile(prog2, WithGlobalNames([]string{"f", "g"}))
+	verifrt.MapOrderAll(false)
+	verifrt.Assert(err1 != nil && err2 != nil, "rejected")
+	if err1 == nil || err2 == nil {
+		return
+	}
+	verifrt.Reach("compared")
+	verifrt.Assert(err1.Error() == err2.Error(), "compile-error-independent-of-map-iteration-order")
+}
